@@ -52,7 +52,19 @@ func (c *Ctx) stmtModel(stmtFns map[string]bool) (*stmtModel, error) {
 	pay := func(st *State) *stmtPay { return st.P.(*stmtPay) }
 	var h Hooks
 	h.SameEffect = func(a, b *State) bool { return false }
-	h.AssumeKey = func(in *Interp, st *State, key Value, k constant.Value, eq bool) bool { return true } // tables are followed
+	h.AssumeKey = func(in *Interp, st *State, key Value, k constant.Value, eq bool) bool {
+		// tables are followed; a table indexed by the type of the current token is a test of that token
+		if key.K == vTag && key.Tag == "curtyp" && !pay(st).done {
+			if v, ok := constant.Int64Val(k); ok {
+				if eq {
+					pay(st).ev = append(pay(st).ev, "peek:"+constNameOf(toks, v))
+				} else {
+					pay(st).ev = append(pay(st).ev, "nomatch:"+constNameOf(toks, v))
+				}
+			}
+		}
+		return true
+	}
 	h.Inline = func(fn *types.Func) bool {
 		if fn.Pkg() == nil || fn.Pkg().Path() != bclPath {
 			return false
@@ -64,6 +76,8 @@ func (c *Ctx) stmtModel(stmtFns map[string]bool) (*stmtModel, error) {
 		switch c.fieldPath(e) {
 		case "<parser>.scope.depth":
 			return tagV("scopedepth", ""), true
+		case "<parser>.current.typ":
+			return tagV("curtyp", ""), true
 		}
 		return Value{}, false
 	}
@@ -123,6 +137,10 @@ func (c *Ctx) stmtModel(stmtFns map[string]bool) (*stmtModel, error) {
 		case role == "error":
 			p.ev = append(p.ev, "error")
 			p.done = true
+			return one(st, unknownV()), true
+		case role == "advance" && len(p.ev) > 0 && strings.HasPrefix(p.ev[len(p.ev)-1], "peek:"):
+			// the token the table was indexed with is consumed: together that is match(token)
+			p.ev[len(p.ev)-1] = "match:" + strings.TrimPrefix(p.ev[len(p.ev)-1], "peek:")
 			return one(st, unknownV()), true
 		case role == "advance", role == "consume", role == "sync":
 			p.ev = append(p.ev, role)
